@@ -9,7 +9,7 @@ PROP = "C02"
 def rand_product(rng, n, k):
     e = gen.random_gate(rng, n)
     for _ in range(k - 1):
-        e = (rng.choice(["mul", "mul", "mulassign", "append", "pushsingles", "pushfront"]), e, gen.random_gate(rng, n))
+        e = (rng.choice(["mul", "mul", "mulassign", "append", "pushsingles", "pushfront", "mulsingles", "mulrefmut"]), e, gen.random_gate(rng, n))
     return e
 
 
